@@ -707,11 +707,11 @@ func (sl *SignalLayout) decodeStandardSignal(stdSig *StandardSignal, rawValue ui
 				rawValue |= (1<<64 - 1) << sigType.size
 			}
 
-			value = int64(rawValue)*int64(sigType.scale) - int64(sigType.offset)
+			value = int64(rawValue)*int64(sigType.scale) + int64(sigType.offset)
 
 		} else {
 			valueType = SignalValueTypeUint
-			value = rawValue*uint64(sigType.scale) - uint64(sigType.offset)
+			value = rawValue*uint64(sigType.scale) + uint64(sigType.offset)
 		}
 
 	case SignalTypeKindDecimal, SignalTypeKindCustom:
